@@ -13,7 +13,8 @@ PROPERTY = "C10"
 LEVEL = "exploration"
 DEADLINE = 300
 RULE = ("cases = call-DAGs (vlib.daggen) and MapSpec pipelines (vlib.mapgen) from VERIF_SEED; rewrites: copy, cloudpickle "
-        "round trip, join / |, update_renames (random injective renaming of parameters and outputs), update_scope('s','*','*') "
+        "round trip, join / |, update_renames (random injective renaming of parameters and outputs to fresh names, and swaps of two "
+        "parameter names), update_scope('s','*','*') "
         "called with dotted keys and nested dicts and its removal, nest_funcs on a convex subset / '*', simplified_pipeline, "
         "split_disconnected, and compositions of up to 3 rewrites; for every retained output and several keyword sets the "
         "rewritten pipeline must return the reference evaluator's value for the ORIGINAL description (modulo the name map); "
@@ -24,7 +25,7 @@ ASSUMPTIONS = ["reference = vlib.daggen.ref_eval / vlib.mapgen.oracle on the ori
                "probe terms use the functions' own (internal) parameter names, so pipeline-level renaming must not change values",
                "nest_funcs subsets are chosen convex (no path leaves the subset and re-enters) by the harness's own graph analysis"]
 BATCH = 12
-REWRITES = ["copy", "pickle", "join", "or", "rename", "scope", "scope-nested", "scope-remove", "nest", "nest-all", "simplify", "split"]
+REWRITES = ["copy", "pickle", "join", "or", "rename", "rename-swap", "scope", "scope-nested", "scope-remove", "nest", "nest-all", "simplify", "split"]
 
 
 def plan(tier, seed):
@@ -121,6 +122,20 @@ def apply_rewrite(kind, st, case, rng, scratch):
         q = p.copy()
         q.update_renames(ren, update_from="current")
         return State(q, {o: ren.get(c, c) for o, c in st.names.items()}, list(st.outs), st.conv, st.scope)
+    if kind == "rename-swap":
+        # permute the names of two root parameters that meet in one function (each new name is the other's current name)
+        present_roots = [r for r in case["roots"] if st.names.get(r) and any(st.names[r] in f.parameters for f in p.functions)]
+        pairs = [(a, b) for f in case["funcs"] for a in f["params"] for b in f["params"]
+                 if a < b and a in present_roots and b in present_roots]
+        if not pairs:
+            raise Skip
+        a, b = rng.choice(pairs)
+        ca, cb = st.names[a], st.names[b]
+        q = p.copy()
+        q.update_renames({ca: cb, cb: ca}, update_from="current")
+        names = dict(st.names)
+        names[a], names[b] = cb, ca
+        return State(q, names, list(st.outs), st.conv, st.scope)
     if kind in ("scope", "scope-nested"):
         if st.scope is not None:
             raise Skip
@@ -267,7 +282,7 @@ def run_dag(v, desc, scratch, keys):
         rng = random.Random(f"c10:{desc['seed']}:{i}")
         try:
             with quiet():
-                p0 = daggen.build_pipeline(case)
+                p0 = daggen.build_pipeline(case, explicit_defaults=(i % 2 == 0))
         except Exception as e:  # noqa: BLE001
             v.bad(exc_sig(e, "refused-construct"), f"valid DAG refused: {exc_msg(e)}", case=daggen.describe(case))
             continue
@@ -305,21 +320,29 @@ def run_dag(v, desc, scratch, keys):
             if n and max((len(daggen.needed_funcs(case, [o])) for o in st.outs), default=0) >= 2:
                 keys.append(f"{daggen.signature(case)}|{chain}")
             # non-interference: mutate the rewritten object, the original must not change (and vice versa)
-            if not isinstance(st.p, list) and len(chain) == 1 and chain[0] in ("copy", "pickle", "rename", "scope", "join"):
+            if not isinstance(st.p, list) and len(chain) == 1 and chain[0] in ("copy", "pickle", "rename", "scope", "join", "or", "nest-all"):
                 try:
                     with quiet():
-                        tgt = st.p.functions[0]
-                        cur = tgt.parameters
-                        if cur:
-                            tgt.update_bound({cur[0]: "MUTATED"})
                         if case["defaults"]:
                             r = sorted(case["defaults"])[0]
                             if st.names[r] in st.p.defaults:
-                                st.p.update_defaults({st.names[r]: "MUTDEF"}, overwrite=True)
+                                # non-overwrite update (merges into the stored defaults) and an overwriting one
+                                st.p.update_defaults({st.names[r]: "MUTDEF"}, overwrite=bool(i % 2))
+                        tgt = st.p.functions[0]
+                        cur = [c for c in tgt.parameters if c not in tgt.defaults]
+                        if cur:
+                            tgt.update_bound({cur[0]: "MUTATED"})
                 except Exception:  # noqa: BLE001
                     pass
                 v.count("non_interference_checks")
+                # the untouched original must not change - observed directly and through a further rewrite of it
                 check_state(v, case, base, ["original-after-mutating-result-of"] + chain, rng, w)
+                try:
+                    with quiet():
+                        again = State(base.p.copy(), dict(base.names), list(base.outs))
+                    check_state(v, case, again, ["copy-of-original-after-mutating-result-of"] + chain, rng, w)
+                except Exception as e:  # noqa: BLE001
+                    v.bad(exc_sig(e, "copy-of-original-after-mutation"), f"copying the original after mutating the rewritten pipeline raised {exc_msg(e)}", **w)
 
 
 # ------------------------------------------------------------------------------------------ map part
